@@ -43,11 +43,12 @@ def parseOp (s : String) : Option Op :=
   | ['L', 'A'] => some .tokenAuto
   | ['F', p, k] =>
     match (match p with | 'u' => some FPoint.cursor | 'x' => some .execute | 'c' => some .commit
-                         | 'r' => some .rollback | _ => none),
+                         | 'r' => some .rollback | 'n' => some .connect | _ => none),
           (match k with | 'e' => some FKind.err | 'd' => some .disc | 'k' => some .kbi | _ => none) with
     | some .cursor, some .err => none
     | some .cursor, some .kbi => none
     | some .execute, some .kbi => none
+    | some .connect, some .kbi => none
     | some p, some k => some (.arm p k)
     | _, _ => none
   | c :: rest =>
@@ -99,9 +100,13 @@ def runOps : Bool → Conn → List Op → Option (List String)
     let allowed := match op with
       | .connect | .arm _ _ | .disarm => true
       | _ => !gone
-    let handleOk := match opHandle? op with
+    let handleOk := (match opHandle? op with
       | some h => decide (h < c.txns.length)
-      | none => true
+      | none => true) &&
+      -- a fresh checkout must not meet an armed connect fault (engine.connect() would raise)
+      (match op with
+       | .connect | .warm _ => !(c.db.faults.any (fun f => f.1 == FPoint.connect))
+       | _ => true)
     if !allowed || !handleOk then none else
     let (c', r) := c.step op
     let sel := match op, r with
@@ -128,10 +133,14 @@ def parseEngineOpts : String → Option (List Bool)
   | "token+auto" => some [false, true]
   | _ => none
 
-def runAll (rs : ResetStyle) (ls : Listener) (ops : String) (eo : List Bool := []) : String :=
+def parseRecycle (s : String) : Option (Option Nat) :=
+  if s == "none" then some none else s.toNat?.map some
+
+def runAll (rs : ResetStyle) (ls : Listener) (ops : String) (eo : List Bool := [])
+    (rc : Option Nat := none) : String :=
   match (if ops == "-" then some [] else (ops.splitOn ";").mapM parseOp) with
   | some ops =>
-    match runOps false (Conn.connect (DB.init rs ls eo)) ops with
+    match runOps false (Conn.connect (DB.init rs ls eo rc)) ops with
     | some out => if out.isEmpty then "-" else "|".intercalate out
     | none => "bad-op"
   | none => "bad-op"
@@ -147,6 +156,10 @@ def handle : List String → String
     match parseReset reset, parseEngineOpts eo with
     | some rs, some eo => runAll rs .none ops eo
     | _, _ => "bad-op"
+  | ["runc", reset, listener, recycle, ops] =>
+    match parseReset reset, parseListener listener, parseRecycle recycle with
+    | some rs, some ls, some rc => runAll rs ls ops [] rc
+    | _, _, _ => "bad-op"
   | ["runl", reset, listener, ops] =>
     match parseReset reset, parseListener listener with
     | some rs, some ls => runAll rs ls ops
